@@ -39,6 +39,7 @@ Definition s_hash : text := Eval compute in T "#".
 Definition s_pipe : text := Eval compute in T "|".
 Definition s_dot : text := Eval compute in T ".".
 Definition s_star : text := Eval compute in T "*".
+Definition s_minus : text := Eval compute in T "-".
 Definition s_lparen : text := Eval compute in T "(".
 Definition s_rparen : text := Eval compute in T ")".
 Definition s_lbrack : text := Eval compute in T "[".
@@ -423,6 +424,42 @@ Definition call_like (prev : option item) : bool :=
       || mem_text t [s_gt; s_quest; s_bang]
   end.
 
+(* tokens.py angle_closes: the head of out is `>`; does it close generic arguments opened in the same statement?
+   l: the items before it, nearest first.  An arrow still in two characters is skipped (norm_seq runs before glue) *)
+Definition arrow_head (r : list item) : bool :=
+  match r with y :: _ => is_tok y s_minus || is_tok y s_eq | [] => false end.
+Fixpoint angle_scan (depth : nat) (l : list item) : bool :=
+  match l with
+  | [] => false
+  | x :: r =>
+      if is_tok x s_semi then false
+      else if is_tok x s_gt then (if arrow_head r then angle_scan depth r else angle_scan (S depth) r)
+      else if is_tok x s_lt then match depth with O => true | S d => angle_scan d r end
+      else angle_scan depth r
+  end.
+Definition angle_closes (out : list item) : bool :=
+  match out with
+  | _ :: r => if arrow_head r then false else angle_scan O r
+  | [] => false
+  end.
+(* tokens.py arg_like: is a `(` group that follows the items out (reversed: nearest first) an argument / parameter
+   list rather than a parenthesised expression / pattern / type or a tuple?  call_like on the previous item, except
+   that a `]` group which is an attribute and a `>` that closes nothing do not count *)
+Definition arg_pos (out : list item) : bool :=
+  match out with
+  | [] => false
+  | prev :: r =>
+      if is_grp prev DBrack &&
+         match r with
+         | p2 :: r2 => is_tok p2 s_hash
+                       || (is_tok p2 s_bang && match r2 with p3 :: _ => is_tok p3 s_hash | [] => false end)
+         | [] => false
+         end
+      then false
+      else if is_tok prev s_gt then angle_closes out
+      else call_like (Some prev)
+  end.
+
 (* tokens.py:217 glue *)
 Definition glue_pair (a b : text) : bool := mem_text (a ++ b) [s_coloncolon; s_arrow; s_fatarrow].
 Fixpoint glue (seq : list item) : list item :=
@@ -589,14 +626,38 @@ Definition arms_and_closures (ctx : option delim) (seq : list item) : list item 
 (* tokens.py:403 trailing_seps, first loop *)
 Definition last_is (items : list item) (s : text) : bool :=
   match rev items with y :: _ => is_tok y s | [] => false end.
-Definition count_commas (items : list item) : nat :=
-  length (filter (fun t => is_tok t s_comma) items).
-Definition trim_group (prev : option item) (x : item) : item :=
+(* tokens.py tuple_commas: the commas that separate the elements of a parenthesised list: not those inside matched
+   `<`..`>` (generic arguments) nor those between the pipes of a closure's parameter list.
+   stack: the commas seen since each unclosed `<`; pipe: those seen since the opening pipe of a parameter list *)
+Fixpoint tuple_commas_loop (visible : nat) (stack : list nat) (pipe : option nat) (prev : option item)
+  (items : list item) : nat :=
+  match items with
+  | [] => (visible + fold_right Nat.add O stack + match pipe with Some n => n | None => O end)%nat
+  | x :: r =>
+      match pipe with
+      | Some n =>
+          if is_tok x s_comma then tuple_commas_loop visible stack (Some (S n)) (Some x) r
+          else if is_tok x s_pipe then tuple_commas_loop visible stack None (Some x) r
+          else tuple_commas_loop visible stack pipe (Some x) r
+      | None =>
+          if is_tok x s_pipe && starts_expr prev then tuple_commas_loop visible stack (Some O) (Some x) r
+          else if is_tok x s_lt then tuple_commas_loop visible (O :: stack) None (Some x) r
+          else if is_tok x s_gt && match stack with [] => false | _ :: _ => true end then tuple_commas_loop visible (tl stack) None (Some x) r
+          else if is_tok x s_comma then
+            match stack with
+            | n :: st => tuple_commas_loop visible (S n :: st) None (Some x) r
+            | [] => tuple_commas_loop (S visible) [] None (Some x) r
+            end
+          else tuple_commas_loop visible stack None (Some x) r
+      end
+  end.
+Definition tuple_commas (items : list item) : nat := tuple_commas_loop O [] None None items.
+Definition trim_group (out : list item) (x : item) : item :=
   match x with
   | Grp d items =>
       let items1 :=
         if last_is items s_comma
-        then if negb (delim_eqb d DParen) || Nat.leb 2 (count_commas items) || call_like prev
+        then if negb (delim_eqb d DParen) || Nat.leb 2 (tuple_commas items) || arg_pos out
              then removelast items else items
         else items in
       let items2 :=
@@ -607,10 +668,10 @@ Definition trim_group (prev : option item) (x : item) : item :=
       Grp d items2
   | Tok _ => x
   end.
-Fixpoint trim_groups (prev : option item) (seq : list item) : list item :=
+Fixpoint trim_groups (out : list item) (seq : list item) : list item :=
   match seq with
   | [] => []
-  | x :: r => let x' := trim_group prev x in x' :: trim_groups (Some x') r
+  | x :: r => let x' := trim_group out x in x' :: trim_groups (x' :: out) r
   end.
 (* second loop: `,` before `>`, and the last `,` of a where clause *)
 Definition ends_where (x : item) : bool := is_tok x s_semi || is_tok x s_eq || is_grp x DBrace.
@@ -633,7 +694,7 @@ Fixpoint where_commas (in_where : bool) (angle : nat) (seq : list item) : list i
         x :: where_commas in_where2 angle3 r
   end.
 Definition trailing_seps (seq : list item) : list item :=
-  where_commas false O (trim_groups None seq).
+  where_commas false O (trim_groups [] seq).
 
 (* tokens.py:235 rewrite, the main loop (out reversed) *)
 Definition vis_kw (x : item) : bool := tok_in x [s_crate; s_self; s_super].
@@ -740,7 +801,7 @@ Fixpoint norm_loop (o : opts) (ctx : option delim) (out : list item) (skip : boo
           else
             let inner := rec o (Some d) x in
             let prev := hd_error out in
-            let cl := call_like prev in
+            let cl := arg_pos out in
             let g := if o_remove_nested_parens o && negb cl then collapse_parens (Grp d inner) else Grp d inner in
             let lit := match g with
                        | Grp DParen [Tok t] => if starts_with_digit t && negb cl then Some t else None
@@ -1070,7 +1131,6 @@ Definition norm_core_items (o : opts) (ts : list tok) : list item :=
 Definition norm_core (o : opts) (ts : list tok) : list text := flatten (norm_core_items o ts).
 
 (* the two-character tokens made by glue, split again *)
-Definition s_minus : text := Eval compute in T "-".
 Definition unglue1 (t : text) : list text :=
   if eqb_text t s_coloncolon then [s_colon; s_colon]
   else if eqb_text t s_arrow then [s_minus; s_gt]
@@ -1172,9 +1232,10 @@ Inductive Step (c : sctx) : list item -> list item -> Prop :=
 | S_diverging_semi its :
     c = CIn DBrace -> drops_tail_semi (its ++ [Tok s_semi]) = true ->
     Step c (its ++ [Tok s_semi]) its
-(* optional trailing separator of a group (not the comma of a 1-tuple) *)
+(* optional trailing separator of a group; NOT the comma of a one-element tuple: a `(` group that is not in
+   argument position (arg_pos) and has no other element separator (tuple_commas) keeps its trailing comma *)
 | S_trailing_sep pre d its post :
-    negb (delim_eqb d DParen) || Nat.leb 2 (count_commas (its ++ [Tok s_comma])) || call_like (lasto pre) = true ->
+    negb (delim_eqb d DParen) || Nat.leb 2 (tuple_commas (its ++ [Tok s_comma])) || arg_pos (rev pre) = true ->
     Step c (pre ++ Grp d (its ++ [Tok s_comma]) :: post) (pre ++ Grp d its :: post)
 (* `,` before `>` in a generic list *)
 | S_generic_comma pre post :
@@ -1207,10 +1268,10 @@ Inductive Step (c : sctx) : list item -> list item -> Prop :=
     Step c (pre ++ Tok s_pipe :: post) (pre ++ post)
 (* redundant nested parentheses, parentheses around a literal *)
 | S_nested_parens pre its post :
-    call_like (lasto pre) = false ->
+    arg_pos (rev pre) = false ->
     Step c (pre ++ Grp DParen [Grp DParen its] :: post) (pre ++ Grp DParen its :: post)
 | S_literal_parens pre t post :
-    call_like (lasto pre) = false -> starts_with_digit t = true ->
+    arg_pos (rev pre) = false -> starts_with_digit t = true ->
     Step c (pre ++ Grp DParen [Tok t] :: post) (pre ++ Tok t :: post)
 (* the delimiter of a macro call, and of the body of a macro definition *)
 | S_macro_delim pre d d' its post :
